@@ -46,12 +46,15 @@ class Verifier(CallMixin, EvalMixin, ExecMixin, SpecMixin, Base):
 
     def _run(self):
         fn = self.ext.node
-        if fn.decorator_list and not self.con.ghost.get("allow_decorators"):
+        if fn.decorator_list and not self.con.ghost.get("allow_decorators") and not self.con.slice_from:
             from .callx import _harmless_decorator
 
             bad = [ast.unparse(d) for d in fn.decorator_list if not _harmless_decorator(d)]
             if bad:
                 raise Unsupported(f"decorated with {bad}")
+        if self.con.slice_from:
+            self.ext.node = self.extract_slice(fn, self.con.slice_from)
+            fn = self.ext.node
         st = self.setup()
         # vacuity: the precondition must be satisfiable
         self.cover(st, "entry", "precondition satisfiable")
@@ -72,6 +75,31 @@ class Verifier(CallMixin, EvalMixin, ExecMixin, SpecMixin, Base):
                 raise Unsupported(f"{o.kind} escaping function body")
         if self.con.must_fail:
             self.must_fail(outs)
+
+    def extract_slice(self, fn, pattern):
+        """Mechanical extraction of one statement of the real function as the unit under contract.  Dropped: every
+        other statement of the function.  The statement's free variables become (symbolic) parameters."""
+        import builtins
+        from . import source as S
+
+        hits = [n for n in ast.walk(fn) if isinstance(n, ast.stmt) and (ast.unparse(n).split("\n")[0].strip().startswith(pattern))]
+        if len(hits) != 1:
+            raise Unsupported(f"slice anchor {pattern!r} matches {len(hits)} statements")
+        node = hits[0]
+        stored = {n.id for n in ast.walk(node) if isinstance(n, ast.Name) and isinstance(n.ctx, ast.Store)}
+        mod = S.real_module(self.ext.relpath)
+        free = []
+        for n in ast.walk(node):
+            if isinstance(n, ast.Name) and isinstance(n.ctx, ast.Load) and n.id not in stored and n.id not in free:
+                if n.id == "self" or not (hasattr(mod, n.id) or hasattr(builtins, n.id)):
+                    free.append(n.id)
+        free.sort(key=lambda x: (x != "self", x))
+        args = ast.arguments(posonlyargs=[], args=[ast.arg(arg=p, annotation=None) for p in free], vararg=None, kwonlyargs=[], kw_defaults=[], kwarg=None, defaults=[])
+        syn = ast.FunctionDef(name=fn.name, args=args, body=[node, ast.Return(value=ast.Constant(value=None))], decorator_list=[], returns=None)
+        syn.lineno = node.lineno
+        ast.fix_missing_locations(syn)
+        self.note(f"slice contract: only the statement starting with {pattern!r} (line {node.lineno}) is under contract; free variables {free} are arbitrary values of their declared types")
+        return syn
 
     def cover(self, st, tag, text):
         self._oid += 1
